@@ -609,6 +609,32 @@ def part_direct(params, tier, acc):
                                 "chip %r core %d" % (name, x, y, p, r["cmd"],
                                                      r["raw_chip"],
                                                      r["cpu"]))
+        # explicit arguments beat the context - also when the explicit value
+        # happens to equal the method's default (p=0, x=y=255)
+        with mc(x=3, y=4, p=3):
+            for form, call, want in (
+                    ("keyword p=0", lambda: mc.read(0x60000000, 4, x=1, y=2,
+                                                    p=0), ((1, 2), 0)),
+                    ("positional p=0", lambda: mc.read(0x60000000, 4, 1, 2, 0),
+                     ((1, 2), 0)),
+                    ("keyword only p=0", lambda: mc.read(0x60000000, 4, p=0),
+                     ((3, 4), 0)),
+                    ("write keyword p=0", lambda: mc.write(
+                        0x60000000, b"abcd", x=2, y=0, p=0), ((2, 0), 0)),
+                    ("sver x=y=255", lambda: mc.get_software_version(
+                        x=255, y=255), ((255, 255), 0))):
+                n0 = len(sim.cmds)
+                acc.evaluations += 1
+                acc.nontrivial += 1
+                call()
+                got = [(r["raw_chip"], r["cpu"]) for r in sim.cmds[n0:]]
+                if got != [want]:
+                    acc.violation(
+                        dict(kind="explicit_equal_to_default"),
+                        dict(part="direct", form=form),
+                        "inside mc(x=3, y=4, p=3) a call with explicit "
+                        "arguments (%s) was sent to %r, expected %r"
+                        % (form, got, [want]))
         for app in (0, 1, 66, 255):
             with mc(app_id=app, x=1, y=1):
                 n0 = len(sim.cmds)
@@ -638,6 +664,52 @@ def part_direct(params, tier, acc):
                           dict(part="direct", app=17),
                           "count_cores_in_state([..], 17) sent app ids %r"
                           % [r["arg2"] & 0xff for r in sent(n0)])
+    # leaving a block restores the previous arguments even when a closing
+    # callback fails (the machine stops answering: the stop signal sent on
+    # leaving application() times out)
+    for outer in (None, dict(x=1, y=2), dict(app_id=7)):
+        with Twin() as tw:
+            mc = tw.A
+            sim = tw.sims["A"]
+            acc.evaluations += 1
+            acc.nontrivial += 1
+            case = dict(part="direct", exit_fault=True, outer=outer)
+            raised = None
+            problem = None
+            try:
+                ctx = mc(**outer) if outer else None
+                if ctx:
+                    ctx.__enter__()
+                before = mc.get_context_arguments()
+                try:
+                    with mc.application(31):
+                        inside = mc.get_context_arguments()
+                        sim.fate = lambda sim_, rec: ["lost"]
+                except Exception as e:
+                    raised = e
+                sim.fate = None
+                after = mc.get_context_arguments()
+                if inside.get("app_id") != 31:
+                    problem = "application(31) did not set app_id inside"
+                elif raised is None:
+                    problem = ("the stop signal cannot have been "
+                               "acknowledged but leaving the block raised "
+                               "nothing")
+                elif after != before:
+                    problem = ("after leaving application(31) with a failing "
+                               "stop signal (%s) the context arguments are "
+                               "%r, before the block they were %r"
+                               % (type(raised).__name__, after, before))
+                if ctx:
+                    ctx.__exit__(None, None, None)
+                    if mc.get_context_arguments().get("x") == 1 and \
+                            not problem:
+                        problem = "outer context still in force after exit"
+            except Exception as e:
+                problem = problem or ("%s: %s" % (type(e).__name__, e))
+            if problem:
+                acc.violation(dict(kind="exit_with_failing_callback"), case,
+                              problem)
     acc.sample(dict(part="direct"))
 
 
